@@ -109,4 +109,19 @@ example : GoodLookup ⟨⟨2024, 2, 29, 23, 59, 58⟩, -12600, false, ofString "
     (0 : Int) ≤ 500000000000000 ∧ (500000000000000 : Int) < 1000000000000000 := by
   unfold GoodLookup; decide +kernel
 
+theorem format_safe : format_safe_statement := by
+  intro fmt al t fs hg ht h0 h1
+  obtain ⟨hv, hy, ho1, ho2⟩ := hg
+  exact Fm.formatSegs_safe fmt al t fs hv hy ho1 ho2 ht h0 h1
+
+/-! hypotheses satisfiable, on a format that ends inside a specifier and asks for a too wide
+fraction: "%E99S%E*" -/
+example : GoodLookup ⟨⟨-1, 12, 31, 23, 59, 59⟩, 89999, true, []⟩ ∧ inI64 (-62135596801) ∧
+    (0 : Int) ≤ 999999999999999 ∧ (999999999999999 : Int) < 1000000000000000 := by
+  unfold GoodLookup; decide +kernel
+example :
+    let r := formatSegs (ofString "%E99S%E*") ⟨⟨-1, 12, 31, 23, 59, 59⟩, 89999, true, []⟩ (-62135596801) 999999999999999
+    r.flags = Flags.none ∧
+    render (fun _ _ => []) r.val.1 r.val.2 = ofString "59.999999999999999000" := by decide +kernel
+
 end Cctz.C08
